@@ -1906,3 +1906,104 @@ Proof.
   revert s; induction sched as [|e l IH]; intros s; cbn [run fold_left]; [reflexivity|].
   rewrite IH. apply step_length.
 Qed.
+
+(** * ErrNotFound only when the height was absent at an instant at which Height() had reached it *)
+Lemma rnext_notfound b s r : r_pc (rnext b s r) = RDone RNotFound ->
+  r_pc r = RDone RNotFound \/ (r_pc r = RLookup2 /\ lookup s (r_n r) = None).
+Proof.
+  unfold rnext, lookup_res. destruct (r_pc r) as [| | |[| |] sig| |x] eqn:Epc; cbn.
+  - destruct (r_n r =? 0); cbn; [discriminate|]. destruct (lookup s (r_n r)); cbn; discriminate.
+  - destruct (r_n r <=? st_hsh s); cbn; discriminate.
+  - destruct (r_n r <=? st_hsh s); cbn; discriminate.
+  - destruct (lookup s (r_n r)); cbn; discriminate.
+  - discriminate.
+  - destruct (r_cancel r && (b || negb sig)); [|destruct sig]; cbn; rewrite ?Epc; discriminate.
+  - destruct (lookup s (r_n r)) eqn:El; cbn; [discriminate|]. intros _. right. auto.
+  - rewrite Epc. auto.
+Qed.
+
+Lemma rpc_eq_dec (a b : rpc) : {a = b} + {a <> b}.
+Proof. repeat decide equality. Qed.
+
+(** position of reader i's first own event (= length of the schedule if it has none) *)
+Fixpoint first_own (sched : list event) (i : nat) : nat :=
+  match sched with
+  | [] => O
+  | e :: l => if own_step e i then O else S (first_own l i)
+  end.
+
+Lemma notfound_witness sched : forall s i r r', Inv s ->
+  nth_error (st_readers s) i = Some r -> r_pc r <> RDone RNotFound ->
+  nth_error (st_readers (run sched s)) i = Some r' -> r_pc r' = RDone RNotFound ->
+  exists k, (first_own sched i <= k < length sched)%nat /\
+            let sk := run (firstn k sched) s in
+            r_n r <= st_hsh sk /\ lookup sk (r_n r) = None /\
+            (exists rk, nth_error (st_readers sk) i = Some rk /\ r_pc rk = RLookup2).
+Proof.
+  induction sched as [|e l IH]; intros s i r r' IV E Hne E' Hpc'.
+  - cbn in E'. rewrite E in E'. injection E' as <-. contradiction.
+  - change (run (e :: l) s) with (run l (step s e)) in E'.
+    pose proof IV as [IW IK [IP IN]]. pose proof (Forall_nth _ _ _ _ IP E) as P.
+    destruct (own_step e i) eqn:Eo.
+    + destruct (step_own s e i r Eo E) as [b E1].
+      destruct (rpc_eq_dec (r_pc (rnext b s r)) (RDone RNotFound)) as [Hd|Hd].
+      * exists O. cbn [first_own]. rewrite Eo. split; [cbn; lia|]. cbn [firstn run fold_left].
+        destruct (rnext_notfound b s r Hd) as [H|[H1 H2]]; [contradiction|].
+        destruct P as (_ & _ & _ & P2 & _). split.
+        -- destruct (P2 H1) as [Hs|Hh]; [exfalso; apply Hs; exact H2|exact Hh].
+        -- split; [exact H2|]. exists r. auto.
+      * destruct (IH (step s e) i (rnext b s r) r' (Inv_step s e IV) E1 Hd E' Hpc') as (k & Hk & H1 & H2 & H3).
+        exists (S k). cbn [first_own]. rewrite Eo. split; [cbn; lia|].
+        cbn [firstn]. change (run (e :: firstn k l) s) with (run (firstn k l) (step s e)).
+        rewrite rnext_n in H1, H2. auto.
+    + destruct (step_other s e i r Eo E) as (r1 & E1 & Hrel).
+      assert (Hr1 : r_n r1 = r_n r /\ r_pc r1 <> RDone RNotFound).
+      { destruct Hrel as [[->|[Hp ->]]|[_ ->]]; auto. rewrite n_sig_of. split; auto.
+        unfold sig_of, parked in *. destruct (r_pc r) as [| | |ph [|]| |]; try discriminate. }
+      destruct Hr1 as [Hn1 Hd1].
+      destruct (IH (step s e) i r1 r' (Inv_step s e IV) E1 Hd1 E' Hpc') as (k & Hk & H1 & H2 & H3).
+      exists (S k). cbn [first_own]. rewrite Eo. split; [cbn; lia|].
+      cbn [firstn]. change (run (e :: firstn k l) s) with (run (firstn k l) (step s e)).
+      rewrite Hn1 in H1, H2. auto.
+Qed.
+
+Lemma notfound_only_when_absent hd tl m ns q sched i r : wf_init hd tl m ->
+  nth_error (st_readers (run sched (init hd tl m ns q))) i = Some r -> r_pc r = RDone RNotFound ->
+  exists k, (first_own sched i <= k < length sched)%nat /\
+            let sk := run (firstn k sched) (init hd tl m ns q) in
+            r_n r <= st_hsh sk /\ lookup sk (r_n r) = None /\
+            (exists rk, nth_error (st_readers sk) i = Some rk /\ r_pc rk = RLookup2).
+Proof.
+  intros WF E Hpc.
+  destruct (run_reader_back sched _ _ _ E) as (r0 & E0 & Hn & _).
+  assert (Hr0 : r_pc r0 <> RDone RNotFound).
+  { cbn in E0. rewrite nth_error_map in E0. destruct (nth_error ns i); [|discriminate]. cbn in E0.
+    injection E0 as <-. discriminate. }
+  destruct (notfound_witness sched _ i r0 r (Inv_init hd tl m ns q WF) E0 Hr0 E Hpc) as (k & Hk & H1 & H2 & H3).
+  exists k. split; [exact Hk|]. rewrite Hn. auto.
+Qed.
+
+(** the clause as the lead states it: a height stored at an instant at which the call has not
+    returned yet is never answered with ErrNotFound *)
+Lemma stored_before_return hd tl m ns q sched1 sched2 i r : wf_init hd tl m ->
+  let s := run sched1 (init hd tl m ns q) in
+  nth_error (st_readers s) i = Some r -> (forall x, r_pc r <> RDone x) -> lookup s (r_n r) <> None ->
+  exists r', nth_error (st_readers (run sched2 s)) i = Some r' /\ r_pc r' <> RDone RNotFound.
+Proof.
+  intros WF s E Hnd Hst.
+  pose proof (Inv_run sched1 _ (Inv_init hd tl m ns q WF)) as [IW _ _]. fold s in IW.
+  set (P := fun (s0 : state) (_ : nat) (x : reader) =>
+              InvW s0 /\ stored s0 (r_n r) /\ r_n x = r_n r /\ r_pc x <> RDone RNotFound).
+  destruct (progress_run P) with (sched := sched2) (s := s) (i := i) (r := r) (k := 0%nat)
+    as (r' & H1 & (_ & _ & _ & H2)); auto.
+  - intros s0 e k x x' (I0 & Hs0 & Hx & Hd) Hrel. unfold P.
+    split; [apply InvW_step; auto|]. split; [apply stored_mono; auto|].
+    destruct Hrel as [[->|[Hp ->]]| ->]; auto. rewrite n_sig_of. split; auto.
+    unfold sig_of, parked in *. destruct (r_pc x) as [| | |ph [|]| |]; try discriminate.
+  - intros s0 e k x b (I0 & Hs0 & Hx & Hd). unfold P.
+    split; [apply InvW_step; auto|]. split; [apply stored_mono; auto|]. rewrite rnext_n. split; auto.
+    intros H. destruct (rnext_notfound b s0 x H) as [H'|[_ H']]; [contradiction|].
+    apply Hs0. rewrite <- Hx. exact H'.
+  - unfold P. split; [auto|]. split; [exact Hst|]. split; [auto|]. apply Hnd.
+  - eauto.
+Qed.
